@@ -112,6 +112,19 @@ def check(case):
         ordered = None
     if per_epoch and ordered is not False:
         raise Violation('ordered-not-false', f'{desc}\nordered == {ordered!r} for a pipeline that reshuffles per epoch')
+    if per_epoch:
+        # ... and stays so under every wrapper that does not fix the order (the flag is what cache / diskcache /
+        # eager operations rely on)
+        for name, wrap in (('cycle', lambda d: d.cycle()), ('catch', lambda d: d.catch()),
+                           ('prefetch1', lambda d: d.prefetch(1, 2)), ('map', lambda d: d.map(lambda x: x)),
+                           ('tile2', lambda d: d.tile(2)), ('cycle-map', lambda d: d.cycle().map(lambda x: x))):
+            try:
+                flag = wrap(ds).ordered
+            except Exception:  # a wrapper may not apply to this pipeline, or may not define the flag
+                continue
+            if flag is not False:
+                raise Violation(f'ordered-not-false|{name}', f'{desc}\n.{name} on top: ordered == {flag!r} for a '
+                                                             f'pipeline that reshuffles per epoch')
     if not per_epoch:
         if len({repr(e) for e in A}) != 1:
             raise Violation('one-time-shuffle-not-fixed', f'{desc}\nepochs {A}')
@@ -227,6 +240,19 @@ def check_vars(only=None):
                 c = o.copy(freeze=freeze)
                 if type(c) is not cls:
                     raise Violation(f'copy-type|{name}', f'copy(freeze={freeze}) of {name} is a {type(c).__name__}')
+                # a user subclass that inherits copy(): the copy is of the subclass (every stage builds its copy with
+                # self.__class__), otherwise the overrides are lost behind prefetch
+                sub = type(name + 'UserSubclass', (cls,), {})
+                o.__class__ = sub
+                try:
+                    cs = o.copy(freeze=freeze)
+                finally:
+                    o.__class__ = cls
+                if type(cs) is not sub:
+                    raise Violation(f'copy-type|{name}.subclass',
+                                    f'copy(freeze={freeze}) of an instance of a subclass of {name} is a '
+                                    f'{type(cs).__name__}: overridden methods are lost')
+                del cs
                 vo, vc = vars(o), vars(c)
                 ko, kc = set(vo) - EXCLUDE, set(vc) - EXCLUDE
                 if ko != kc:
